@@ -81,7 +81,8 @@ def doCmd (d : DSt) (c : Option Cmd) : DSt × String :=
   | none => (d, "bad-op")
 
 def dumpLog (pst : PSt) : String :=
-  joinOr "," (sortStrs (pst.log.map (fun l => toString l.uid ++ ":" ++ toString l.t ++ ":" ++ enc l.host)).eraseDups)
+  -- the entries whose login would still be valid
+  joinOr "," (sortStrs ((pst.log.filter (fun l => authLive pst.st.db.timeout pst.st.now (l.t, l.host))).map (fun l => toString l.uid ++ ":" ++ toString l.t ++ ":" ++ enc l.host ++ ":" ++ enc l.origin)).eraseDups)
 
 def dstep (st : St) : List String → St × String
   | ["reset", t] =>
@@ -99,6 +100,7 @@ def dstep (st : St) : List String → St × String
   | ["rename", id, n] => doOp st (do pure (Op.rename (← id.toNat?) (← dec n)))
   | ["secure", id, b] => doOp st (do pure (Op.secure (← id.toNat?) (← decBool b)))
   | ["load", id, n, s, ms] => doOp st (do pure (Op.load (← id.toNat?) (← dec n) (← decBool s) (← decList ms)))
+  | ["follownick", id, a, b] => doOp st (do pure (Op.followNick (← id.toNat?) (← dec a) (← dec b)))
   | ["deluser", id] => doOp st (do pure (Op.delUser (← id.toNat?)))
   | ["tick", dt] => doOp st (do pure (Op.tick (← dt.toNat?)))
   | ["lookup", s] => doOp st (do pure (Op.lookup (← dec s)))
@@ -132,6 +134,16 @@ def pdstep (d : DSt) : List String → DSt × String
   | ["p_changename", p, n, nn, pw] => doCmd d (do pure (Cmd.changename (← dec p) (← dec n) (← dec nn) (← dec pw)))
   | ["p_whoami", p] => doCmd d (do pure (Cmd.whoami (← dec p)))
   | ["p_tick", dt] => doCmd d (do pure (Cmd.tick (← dt.toNat?)))
+  | ["p_follow", b] =>
+    match decBool b with
+    | some b => ({ d with pst := { d.pst with follow := b } }, "ok")
+    | none => (d, "bad-op")
+  | ["p_nick", p, nn] =>
+    match dec p, dec nn with
+    | some p, some nn => let r := nickStep d.pst p nn; ({ d with pst := r.1 }, encReply r.2)
+    | _, _ => (d, "bad-op")
+  | ["p_events"] =>
+    (d, joinOr "," (sortStrs (d.pst.events.map (fun e => enc e.1 ++ ":" ++ enc e.2)).eraseDups))
   | ["p_log"] => (d, dumpLog d.pst)
   | ["p_dump"] =>
     (d, "U=" ++ joinOr ";" (sortStrs (d.pst.st.db.users.map (dumpUser d.pst.st.db.timeout d.pst.st.now))) ++
